@@ -7,6 +7,7 @@ import (
 	"math/big"
 	"strings"
 	"time"
+	"unicode/utf8"
 
 	"kmc/core"
 	"kmc/jr"
@@ -318,6 +319,38 @@ func c17Run(e *core.Env) {
 				}
 			}
 		}
+	}
+	if e.Take() {
+		// large tables (700 rows): the renderer may take another code path for them. The
+		// real binary is run free with all CPUs and every line must have the same width;
+		// the race detector decides whether rows are measured/printed without synchronisation.
+		sc := raceOnlyScenarios()[0]
+		drv.Files(sc.Files)
+		for i := 0; i < core.Pick(e, 8, 40); i++ {
+			o := drv.RunBinary(sc.Args...)
+			e.Count("evaluations")
+			e.Count("large_table_runs")
+			if o.Exit != 0 {
+				e.Violation("C17:large-table-failure", o.Stderr, c17Case{}, nil)
+				break
+			}
+			w := -1
+			bad := ""
+			for ln, l := range strings.Split(strings.TrimRight(o.Stdout, "\n"), "\n") {
+				n := utf8.RuneCountInString(l)
+				if w < 0 {
+					w = n
+				} else if n != w && l != "" {
+					bad = fmt.Sprintf("line %d is %d wide, line 0 is %d wide: %q", ln, n, w, l)
+					break
+				}
+			}
+			if bad != "" {
+				e.Violation("C17:not-rectangular:large-table", "balance of a 700-account journal (run "+fmt.Sprint(i+1)+"): "+bad, c17Case{}, nil)
+				break
+			}
+		}
+		raceTier(e, core.Pick(e, 3, 12), "C17", "big-table")
 	}
 }
 
